@@ -70,10 +70,12 @@ class HistWorld(GWorld):
 
     # ---- methods decorated with invalidate_cache go through the real wrapper
     def _decorator_args(self, fi):
-        for d in fi.node.decorator_list:
-            if isinstance(d, ast.Call) and (dotted_name(d.func) or "").split(".")[-1] == "invalidate_cache":
-                return [a.id for a in d.args if isinstance(a, ast.Name)]
-        return None
+        nm = getattr(self, "_netmodel", None)
+        if nm is None:
+            from .effects import NetModel
+
+            nm = self._netmodel = NetModel(self.prog)
+        return nm.decorator_names(fi)[1]
 
     def intercept_call(self, it, f, args, kwargs, node):
         fi = f.fi
